@@ -361,6 +361,39 @@ def check_reset(ctx, tu, info, f):
         ctx.ob('C15.P2', f, 'nothing but "a target is set" guards the walk', not guards, detail='extra guard at %s' % guards)
 
 
+def record_helper_shape(info, g, pid):
+    """g pushes its parameter `pid` into this.itemList under itemListMutex on every normal path: True when every return of g hands
+    back that parameter's handle, False when it returns something else / nothing, None when g is no recording helper."""
+    si = info.scopes(g)
+    pushes = [n for n in g.calls() if (g.callee(n) or {}).get('name') in ('push_back', 'emplace_back') and g.call_obj(n)
+              and path(g, g.call_obj(n)) == ('this', '.itemList')]
+    if len(pushes) != 1:
+        return None
+    p = pushes[0]
+    a = g.call_args(p)
+    if len(a) != 1 or root_var_id(argpath(g, a[0])) != pid or fields_of(argpath(g, a[0])):
+        return None
+    if not g.pos_postdominates(g.pos(p), (g.entry, 0)):
+        return None
+    if 'itemListMutex' not in {mutex_name(m) for m in si.node_held_must(p)}:
+        return None
+    rets = g.return_nodes()
+    rh = bool(rets)
+    for r in rets:
+        ks = g.kids(r)
+        v = g.strip_all_casts(ks[0]) if ks else None
+        while v and g.is_construct(v) and len(g.nodes[v].get('args', [])) == 1:
+            v = g.strip_all_casts(g.nodes[v]['args'][0])
+        pv = path(g, v) if v else ()
+        if not (root_var_id(pv) == pid and last_field(pv) == 'handle'):
+            rh = False
+    return rh
+
+
+def fields_of(p):
+    return [x for x in p[1:] if isinstance(x, str) and x.startswith('.')]
+
+
 def check_add(ctx, tu, info, f):
     want = ADDS[f.name]
     si = info.scopes(f)
@@ -380,6 +413,41 @@ def check_add(ctx, tu, info, f):
               and path(f, f.call_obj(n)) == ('this', '.itemList')]
     ok = len(item_vars) == 1 and len(pushes) == 1
     detail = 'locals holding the handle: %d, pushes into itemList: %d' % (len(item_vars), len(pushes))
+    if not pushes:
+        # the recording step extracted into a member helper: h(Item{event, target->add(..)}) or h(item), where h pushes its parameter
+        # into this.itemList under the record mutex on every normal path (and may return the parameter's handle)
+        hs = []
+        for n in f.calls():
+            if n == add:
+                continue
+            for g in f.callee_fns(n):
+                if not is_sr(g) or g.kind == 'lambda':
+                    continue
+                for i, a in enumerate(f.call_args(n)):
+                    carries = add in f.descendants(a) or a == add or (len(item_vars) == 1 and root_var_id(argpath(f, a)) == item_vars[0])
+                    if carries and i < len(g.params):
+                        sh = record_helper_shape(info, g, g.params[i]['id'])
+                        if sh is not None:
+                            hs.append((n, g, sh))
+        if len(hs) == 1:
+            n, g, returns_handle = hs[0]
+            ok = f.pos_postdominates(f.pos(n), f.pos(add)) and (f.pos(n) == f.pos(add) or f.pos_dominates(f.pos(add), f.pos(n)) or add in f.descendants(n))
+            ctx.ob('C15.P3', f, 'the handle returned by the target is recorded under the record mutex on every normal path', ok,
+                   detail='through the recording helper %s' % g.skey)
+            rets = f.return_nodes()
+            okr = bool(rets)
+            for r in rets:
+                ks = f.kids(r)
+                v = f.value_source(ks[0]) if ks else None
+                while v and f.is_construct(v) and len(f.nodes[v].get('args', [])) == 1:
+                    v = f.value_source(f.nodes[v]['args'][0])
+                pv = path(f, v) if v else ()
+                from_helper = returns_handle and v == n
+                from_item = bool(item_vars) and root_var_id(pv) == item_vars[0] and last_field(pv) == 'handle'
+                if not (from_helper or from_item):
+                    okr = False
+            ctx.ob('C15.P3', f, 'the caller receives the recorded handle', okr)
+            return
     if ok:
         p = pushes[0]
         a = f.call_args(p)
